@@ -20,7 +20,12 @@ RULE = ("programs of 3-11 nodes with 1-4 effects of every kind (Effect::new, Ren
         "flavour, memos (equality / always-changed / parity compare), derived signals and wrappers; about a third of the effects write signals (never one that an effect of smaller-or-equal index may "
         "read, so every history reaches idle; a small 'selfwrite' family of guarded self-feeding effects is kept for F-C02-d). "
         "Histories interleave set / notify / read with executor steps (poll the k-th ready task, run to idle) and pause / "
-        "resume / dispose of effect owners and, in some cases, disposal of an arena signal / memo that effects read. For small programs (2-3 effects, 2 writes) every schedule of up to 2 polls between "
+        "resume / dispose of effect owners and, in some cases, disposal of an arena signal / memo that effects read. "
+        "In 40 % of the random programs, and in a stream of its own (2-5 effects, chains of depth 3 and more, siblings), the owners "
+        "of the effects form a static TREE (an effect's owner is created under the owner of an earlier effect) and pause / resume / "
+        "dispose are addressed to any owner of the tree in any order (pause an inner owner, resume an ancestor, ...). A selector "
+        "stream builds 1-2 Selector::new / new_with_fn (comparators ==, same bucket of ten, value >= key) over signals / memos / "
+        "another selector, with 1-4 keys each, read through selected(key) by effects of every kind and by memos. For small programs (2-3 effects, 2 writes) every schedule of up to 2 polls between "
         "the operations is enumerated; beyond that schedules are seeded-random. Every case runs under a 4 s watchdog. "
         "Non-trivial = some effect ran at least twice; distinct = distinct case hash.")
 TRUSTED = [
@@ -28,7 +33,18 @@ TRUSTED = [
     "extraction to OCaml with ExtrOcamlBasic only, ocamlfind ocamlopt 4.13.1, extract/driver.ml sexp I/O",
     "harness/rx (Rust): real reactive_graph objects; harness-owned executor installed with any_spawner::Executor::"
     "init_local_custom_executor (explicit run queue in wake order; the case's schedule picks the task to poll); every "
-    "effect is created under its own child owner (pause / resume / cleanup act on that owner)",
+    "effect is created under its own child owner (pause / resume / cleanup act on that owner); that owner is a child of the "
+    "root or of the owner of an earlier effect (static tree); dispose = drop the RenderEffect handles of the subtree, then "
+    "Owner::cleanup on its root",
+    "selectors: the real Selector walks its key map in FxHashMap order, which is not modelled; the harness-owned executor "
+    "queues the tasks woken during one poll of a selector's internal effect in index order, and so does the model "
+    "(Effects.canon_wakes). The Coq model of a Selector is a program transformation (GraphRun.v: value cell, previous-value "
+    "cell, one trigger per key, internal RenderEffect); reads of the two cells are left out of the compared trace. "
+    "COMPARED, NOT PROVED: the transformed internal effect reads and writes its own cells, so programs with selectors lie in "
+    "the static class self_feeding that C02_idle_converged_except_known excludes; for them idle convergence rests on the "
+    "trace comparison with the model and on the Python oracle (an effect's last run saw the current truth value of every "
+    "selected(key) it read), not on the theorem. The other theorems (no glitch, paused / disposed never run, wake order, "
+    "owner tree) do not need that hypothesis",
     "modelled, not verified: futures::task::AtomicWaker (register stores the waker, wake takes it), the one-slot channel, "
     "Arc/Weak liveness of EffectInner (dropped when its owner is cleaned up / the RenderEffect handle is dropped), RwLock "
     "semantics on one thread; the lock layer itself (F-C02-b) is observed by the watchdog, not modelled",
@@ -36,7 +52,12 @@ TRUSTED = [
 ]
 ASSUMPTIONS = [
     "one poll of a task is atomic (single thread)",
-    "static graphs: effects do not create nested effects or memos",
+    "static graphs: effects do not create nested effects or memos; the owner tree is static (owners are created with "
+    "the program, before the history starts, so Owner::child's inheritance of the paused flag is not exercised)",
+    "a selector's value is state written by its internal effect (an effect-mediated signal): selected(key) read during a "
+    "run is checked against f(key, the value the selector holds), and the selector's internal effect against its source",
+    "after a pause is lifted an effect that missed a notification is owed a run only by a LATER change: through a selector that "
+    "means a later run of the selector's internal effect that flips f(key, .) for a key the effect read (the selector's contract)",
     "a notification that was pending when the owner was paused and is consumed during the pause is treated like a change "
     "made during the pause (documented as not replayed)",
 ]
@@ -45,8 +66,10 @@ LEVEL_TEXT = ("Coq proofs over an executable model of EffectInner, the notificat
               "running the extracted model and the real effects on the same cases with a harness-owned executor (full traces "
               "compared, small programs exhaustively over schedules) and an independent idle-consistency recomputation in Python.")
 LEVEL_NOTE = ("see Properties_C02.v: idle convergence is proved for every program outside the class self_feeding (effects and watch "
-              "handlers may write signals, but not into their own static cone); findings F-C02-a/b/c repaired, F-C02-d (exactly that "
-              "class, same predicate as classify() here) open; ImmediateEffect oracle-only.")
+              "handlers may write signals, but not into their own static cone), for every static owner tree (pause / resume reach "
+              "every descendant: C02_pause_reaches_descendants); findings F-C02-a/b/c repaired, F-C02-d (that class; classify() here "
+              "uses the same predicate on the case's own effects) open; selectors COMPARED-NOT-PROVED for idle convergence (their "
+              "model is a program transformation that falls into the excluded class); ImmediateEffect oracle-only.")
 TECHNIQUE = "Coq proof (invariant over all schedules) + differential correspondence of the extracted model with the Rust code"
 
 
@@ -122,6 +145,8 @@ def generate(rng, tier):
     for i in range(12000 if quick else 120000):
         ne = rng.choice([1, 2, 2, 3, 4])
         prog = X.gen_program(rng, rng.randint(ne + 2, 11), ne)
+        if ne > 1 and rng.random() < 0.4:
+            X.add_owner_tree(rng, prog)
         ops = X.gen_ops(rng, prog, rng.randint(8, 40), w=(0.30, 0.04, 0.12, 0.24, 0.18, 0.12), p_drop=0.15)
         if rng.random() < 0.7:
             ops.append([4])
@@ -140,6 +165,43 @@ def generate(rng, tier):
         for _ in range(rng.randint(1, 3)):
             ops += [[0, rng.choice(sigs), rng.randint(0, 3)], [4]]
         yield dict(case=C.norm([prog, ops]), kind="pause", compare=True)
+    # a tree of owners: pause / resume / dispose addressed to any owner of the tree, in any order
+    for i in range(3000 if quick else 30000):
+        ne = rng.choice([2, 3, 3, 4, 5])
+        prog = X.gen_program(rng, rng.randint(ne + 2, ne + 5), ne, p_untr=0.05)
+        X.add_owner_tree(rng, prog, p_child=0.85)
+        effs = [j for j, nd in enumerate(prog) if nd[0] == X.EFF]
+        sigs = [j for j, nd in enumerate(prog) if nd[0] == X.SIG]
+        ops = [[4]] if rng.random() < 0.8 else []
+        for _ in range(rng.randint(3, 12)):
+            r = rng.random()
+            if r < 0.45:
+                ops.append([rng.choice([5, 5, 6, 6, 6, 7] if rng.random() < 0.2 else [5, 6, 6]), rng.choice(effs)])
+            elif r < 0.8:
+                ops.append([0, rng.choice(sigs), rng.randint(0, 3)])
+                if rng.random() < 0.6:
+                    ops.append([4] if rng.random() < 0.7 else [3, rng.randint(0, 3)])
+            else:
+                ops.append([4] if rng.random() < 0.6 else [3, rng.randint(0, 3)])
+        # the tail: everything resumed from some root of the forest, every signal written, idle
+        if rng.random() < 0.7:
+            for e in effs:
+                if X.parent_of(prog[e]) is None:
+                    ops.append([6, e])
+            for s_ in sigs:
+                ops.append([0, s_, rng.randint(4, 6)])
+        ops.append([4])
+        yield dict(case=C.norm([prog, ops]), kind="owners", compare=True)
+    # selectors (Selector::new / new_with_fn) read by effects and memos
+    for i in range(4000 if quick else 40000):
+        ne = rng.choice([1, 1, 2, 2, 3])
+        prog = X.gen_selector_program(rng, ne, n_sel=rng.choice([1, 1, 1, 2]))
+        if ne > 1 and rng.random() < 0.2:
+            X.add_owner_tree(rng, prog)
+        ops = X.gen_ops(rng, prog, rng.randint(6, 30), w=(0.42, 0.03, 0.08, 0.20, 0.22, 0.05), vals=X.SEL_VALUES)
+        if rng.random() < 0.8:
+            ops.append([4])
+        yield dict(case=C.norm([prog, ops]), kind="selector", compare=True)
     for i in range(30 if quick else 300):
         yield dict(case=C.norm(selfwrite(rng)), kind="selfwrite", compare=True)
     # ImmediateEffect: not modelled; watchdog + oracle only
